@@ -25,6 +25,16 @@ SHAPES = {
                ("Serveroptional", "Server-optional", None, ["x86_64"], False),
                ("Addon", "Server-Addon", "Server", ["i386"], False)],
     "single": [("Everything", "Everything", None, ["x86_64"], False)],
+    # the same id at several levels of one UID-prefix region (the classic Server / Server-optional / Server-HA / Server-HA-optional),
+    # a chain whose ids repeat, and a dashed top-level variant next to a variant with an equally named child
+    "reused-ids": [("Server", "Server", None, ["x86_64", "s390x"], False),
+                   ("optional", "Server-optional", "Server", ["x86_64"], False),
+                   ("HA", "Server-HA", "Server", ["x86_64", "s390x"], False),
+                   ("optional", "Server-HA-optional", "Server-HA", ["s390x"], False)],
+    "chain-x": [("X", "X", None, ["x86_64"], False),
+                ("X", "X-X", "X", ["x86_64"], False),
+                ("X", "X-X-X", "X-X", ["x86_64"], False),
+                ("XX", "XX", None, ["x86_64"], False)],
 }
 
 
@@ -199,7 +209,7 @@ META = {
     "assumptions": [
         "JSON text layer replaced by the DocText stub (psx/stubs.py): ordered skeleton + normalised formatting arguments; "
         "contract: stdlib json round-trips str/int/bool/None/list/dict-with-str-keys exactly",
-        "forest shapes from the catalogue in harness/C01.py (up to 4 variants, depth 3, dashed top-level UID, layered-product variants); "
+        "forest shapes from the catalogue in harness/C01.py (up to 4 variants, depth 3, dashed top-level UID, layered-product variants, ids re-used at several levels); "
         "ids, UIDs and arch names are concrete, all other fields symbolic",
         "per job a rotating subset of (path category, arch) entries is filled, always including one entry for an arch outside the variant's arch set; "
         "focus set: at most 2 of them may be the empty string in one job (rotating), the others are non-empty",
